@@ -257,7 +257,8 @@ def mirror(point: PointType, normal: VectorType, origin: PointType):
     normal = unit_vector(normal)
     origin = np.asarray(origin)
 
-    point -= origin
+    # do not modify caller's array
+    point = point - origin
     rotated = point.dot(mirror_matrix(normal))
     rotated += origin
 
